@@ -1,5 +1,6 @@
 import OcppModel.WsAdmit
 import OcppModel.WsServer
+import OcppModel.WsSocket
 
 /-! Line-protocol drivers for the websocket suites; mirror go/cmd/harness/ws*.go -/
 namespace Ocpp.Drv
@@ -102,5 +103,40 @@ def stepWsSrv (s : WsServer.St) (f : List String) : WsServer.St × String :=
   | ["list"] => go .list
   | ["stop"] => go .stop
   | _ => (s, "bad-op")
+
+end Ocpp.Drv
+
+namespace Ocpp.Drv
+open Ocpp.WsSocket
+
+/-- two sockets (server side, client side) under the sequential schedule -/
+structure IoSt where
+  srv : Sock := init true [[]]
+  cli : Sock := init true [[]]
+
+def runLabels (s : Sock) (ls : List Label) : Sock := (runL s ls).getD s
+
+/-- one `Write(m)` run to completion, then the pump to quiescence -/
+def writeSeq (s : Sock) (m : Nat) : Sock × String :=
+  let s0 := { s with ws := [.todo [m]] }
+  let s1 := runLabels s0 [.rlock 0, .check 0]
+  if s1.errors > s.errors then (s1, "error")
+  else
+    let s2 := runLabels s1 [.send 0, .take, .writeOk]
+    (s2, if s2.net.length > s.net.length then "ok delivered" else "ok lost")
+
+/-- a close (local request or the read pump's force-close after the peer went away) -/
+def closeSeq (s : Sock) : Sock := runLabels s [.closeReq, .lock]
+
+def stepWsIO (st : IoSt) (f : List String) : IoSt × String :=
+  match f with
+  | ["reset"] => ({}, "ok")
+  | ["sw", n] => let (s, o) := writeSeq st.srv n.toNat!; ({ st with srv := s }, o)
+  | ["cw", n] => let (s, o) := writeSeq st.cli n.toNat!; ({ st with cli := s }, o)
+  | ["unknown", _] => (st, "error")
+  | ["sclose"] =>
+    if st.srv.pump == .done then (st, "error") else ({ srv := closeSeq st.srv, cli := closeSeq st.cli }, "ok")
+  | ["cstop"] => ({ srv := closeSeq st.srv, cli := closeSeq st.cli }, "ok")
+  | _ => (st, "bad-op")
 
 end Ocpp.Drv
